@@ -254,6 +254,49 @@ pub fn run_auth(args: &Args) -> (u64, u64) {
             }
         }
     }
+    // three logins INTERLEAVED step by step on this thread (all register, then all proofs, all clients, all servers in
+    // another order, all client verdicts, reconnects in turn): each object carries its own state, nothing is shared
+    for round in 0..(if thorough { 30 } else { 4 }) {
+        h.reset("auth-interleaved");
+        h.honest = true;
+        let who: Vec<(String, String)> = (0..3).map(|i| if (round + i) % 2 == 0 { (CREDS[(round + i) % CREDS.len()].0.to_string(), CREDS[(round + i) % CREDS.len()].1.to_string()) } else { (rand_cred(&mut rng), rand_cred(&mut rng)) }).collect();
+        let vs: Vec<_> = who.iter().map(|(u, p)| h.register(u, p, None)).collect();
+        let mut proofs = vec![];
+        for v in vs { proofs.push(v.and_then(|(vo, v)| h.into_proof(vo, v, None))); }
+        let mut clients = vec![];
+        for (i, pr) in proofs.iter().enumerate().rev() {
+            clients.push((i, pr.as_ref().and_then(|(_, p)| {
+                let bpub = h.pubkey(*p.server_public_key())?;
+                h.client_new(&who[i].0, &who[i].1, wow_srp::GENERATOR, N_LE, bpub, *p.salt(), None)
+            })));
+        }
+        clients.sort_by_key(|c| c.0);
+        let order = [[1usize, 2, 0], [2, 0, 1], [0, 2, 1]][round % 3];
+        let mut servers: Vec<Option<(u64, wow_srp::server::SrpServer, [u8; 20])>> = vec![None, None, None];
+        let mut proofs: Vec<Option<_>> = proofs.into_iter().collect();
+        for i in order {
+            if let (Some((po, p)), Some((_, c))) = (proofs[i].take(), clients[i].1.as_ref()) {
+                if let Some(apub) = h.pubkey(*c.client_public_key()) {
+                    servers[i] = h.into_server(po, p, apub, *c.client_proof());
+                }
+            }
+        }
+        let mut sessions = vec![];
+        for (i, c) in clients.into_iter() {
+            if let (Some((co, chal)), Some((so, server, m2))) = (c, servers[i].take()) {
+                if let Some((co2, client)) = h.verify_server_proof(co, chal, m2) {
+                    h.agree(so, co2, server.session_key(), client.session_key());
+                    sessions.push(Session { so, server, co: co2, client });
+                }
+            }
+        }
+        for _ in 0..2 {
+            for s in sessions.iter_mut() {
+                good_reconnect(&mut h, s);
+            }
+        }
+        h.honest = false;
+    }
     // random sessions: random credentials, genuine RNG draws (nothing injected)
     let n = args.n.unwrap_or(if thorough { 20000 } else { 400 });
     for i in 0..n {
